@@ -63,12 +63,15 @@ class CusumModel:
 
 
 class PageHinkleyModel:
-    def __init__(self, delta, threshold, burn_in, direction):
+    def __init__(self, delta, threshold, burn_in, direction, exact_zero=False):
+        # exact_zero: the caller knows the observations exactly (C04 feeds them itself); then an all-zero epoch is decided strictly
+        self.exact_zero = exact_zero
         self.delta = Fraction(delta)
         self.thr = Fraction(threshold)
         self.burn = burn_in
         self.dir = direction
         self.total = 0
+        self.exact_tests = 0
         self.reset()
 
     def reset(self):
@@ -79,6 +82,7 @@ class PageHinkleyModel:
         self.max = Fraction(0)
         self.state = None
         self.rows = 0
+        self.all_zero = True  # every observation of the epoch so far is exactly 0.0
 
     def clone(self):
         c = PageHinkleyModel.__new__(PageHinkleyModel)
@@ -98,7 +102,14 @@ class PageHinkleyModel:
         ph = self.sum - self.min if self.dir == "positive" else self.max - self.sum
         th = self.thr * self.mean
         phf, thf = float(ph), float(th)
-        check = ch.gt(phf, thf, REL * (1 + abs(phf) + abs(thf)))
+        self.all_zero = self.all_zero and x == 0
+        if self.exact_zero and self.all_zero and self.delta * 2 ** 40 == int(self.delta * 2 ** 40):
+            # an all-zero epoch (e.g. the error indicator of a perfect classifier) with a dyadic delta: mean, threshold * mean
+            # and the sums of -delta are computed without rounding in every evaluation order, so "larger than" is decided exactly
+            check = ph > th
+            self.exact_tests += self.n > self.burn
+        else:
+            check = ch.gt(phf, thf, REL * (1 + abs(phf) + abs(thf)))
         if check and self.n > self.burn:
             self.state = "drift"
         self.rows += 1
